@@ -315,10 +315,19 @@ func gcAgainstPersistedDeploymentRule(c *Ctx) {
 			// the objects read from the cluster in this function: receivers of ClientObject() handed to a reader Get
 			read := map[ssa.Value]bool{}
 			for _, rc := range callsIn(fn) {
-				if !isReaderGet(rc.Common) {
+				var tgt ssa.Value
+				if isReaderGet(rc.Common) {
+					tgt = callArgs(rc.Common)[2]
+				} else if ws, isW := classifyWriter(rc); isW && ws.Verb == "Create" {
+					// just created: the cluster holds exactly this object — on the paths that created it
+					created := rc.Instr
+					if !p.mustPrecede(call.Instr, func(in ssa.Instruction) bool { return in == ssa.Instruction(created) }) {
+						continue
+					}
+					tgt = ws.Obj
+				} else {
 					continue
 				}
-				tgt := callArgs(rc.Common)[2]
 				if oc, _ := asCall(tgt); oc != nil && calleeName(oc.Common()) == "ClientObject" {
 					if r := callRecv(oc.Common()); r != nil {
 						for _, pv := range p.possibleValues(r) {
@@ -328,10 +337,18 @@ func gcAgainstPersistedDeploymentRule(c *Ctx) {
 				}
 			}
 			hit := false
+			allNil := true
 			for _, pv := range p.possibleValues(arg) {
 				if read[stripConv(pv)] {
 					hit = true
 				}
+				if !isNilConst(stripConv(pv)) {
+					allNil = false
+				}
+			}
+			if allNil {
+				o.OK("unreachable copy (the argument is the nil of an error return)")
+				continue
 			}
 			if hit {
 				o.OK()
